@@ -199,6 +199,20 @@ def skip_then_noise_bodies():
                 yield noisy
 
 
+def two_label_bodies():
+    """A goto to a first label skips a declaration; gotos to a second label in the same block follow the declaration; the
+    variable is used after the second label: what was pruned at the first label stays pruned."""
+    ga = [("goto", "a"), ("if", cond_true(), ("goto", "a"), None)]
+    gb = [[], [("goto", "b")], [("if", cond_true(), ("goto", "b"), None)], [("if", cond_true(), ("goto", "b"), None), ("if", cond_true(), ("goto", "b"), None)]]
+    for g1 in ga:
+        for decl in ([V("v", 1)], [V("v", 1), U("v")], [V("w", 2), V("v", 1)]):
+            for between in gb:
+                for tail in ([U("v")], [("block", [U("v")])], [U("w"), U("v")] if len(decl) == 2 and decl[0][1] == "w" else [U("v"), U("v")]):
+                    yield [g1] + list(decl) + [("label", "a")] + list(between) + [("label", "b")] + list(tail)
+                    # the second label's gotos before the first label as well
+                    yield list(between) + [g1] + list(decl) + [("label", "a"), ("label", "b")] + list(tail)
+
+
 def run_case(case):
     kind = case[0]
     out = []
@@ -242,6 +256,17 @@ def run_case(case):
                 continue
             res = check_body(body, 0)
             res.setdefault("cov", {})["multigoto_bodies"] = 1
+            out.append(res)
+        return out
+    if kind == "twolabels":
+        _, idx, n = case
+        for i, body in enumerate(two_label_bodies()):
+            if i % n != idx:
+                continue
+            if models.goto_model(body, True):
+                continue
+            res = check_body(body, 0)
+            res.setdefault("cov", {})["two_label_bodies"] = 1
             out.append(res)
         return out
     if kind == "skipnoise":
@@ -300,6 +325,7 @@ def main(tier, seed, replay=None):
                 cases.append(("enum", which, size, 3, idx, shards))
     cases += [("multigoto", idx, n) for idx in range(n)]
     cases += [("skipnoise", idx, n) for idx in range(n)]
+    cases += [("twolabels", idx, n) for idx in range(n)]
     nrand = 1500 if tier == "quick" else 60000
     cases += [("random", seed, i) for i in range(nrand)]
     for r in common.run_sharded(run_case, cases):
